@@ -1,0 +1,33 @@
+//go:build verif
+
+package momentum
+
+// Contracts checked by /verif (gvc). This file contains comments only and is compiled only with -tags verif.
+
+// ---- the concrete momentum store: abstract state used by the functions specified below -----------------------------------
+//@ model momentumStore frontierHeight int       // height of the momentum this store is the state of
+//@ model momentumStore sporkCount int           // the spork entries stored in the spork contract, in storage order,
+//@ model momentumStore sporksArr int            // as the canonical slice GetAllDefinedSporks hands out
+//@ model momentumStore sporksOff int
+
+//@ spec definedSporks(ms *momentumStore) []*definition.Spork = slice("[]*definition.Spork", ms.sporksArr, ms.sporksOff, ms.sporkCount)
+
+//@ func momentumStore.GetFrontierMomentum(ms) -> (m, err)
+//@   trusted
+//@   ensures err == nil ==> m != nil && m.Height == ms.frontierHeight
+//@   modifies nothing
+
+//@ func momentumStore.GetAllDefinedSporks(ms) -> (sporks, err)
+//@   trusted
+//@   ensures err == nil ==> sporks.arr == ms.sporksArr && sporks.off == ms.sporksOff && len(sporks) == ms.sporkCount && forall k int :: 0 <= k && k < len(sporks) ==> sporks[k] != nil
+//@   modifies nothing
+
+// Property C17: a spork-gated feature is active exactly from the spork's enforcement height on (and never at the genesis
+// momentum): active <=> some stored spork entry with this id is activated and its enforcement height <= the height of the
+// momentum the store is the state of. A function of the store alone.
+//@ func momentumStore.IsSporkActive(ms, implemented) -> (active, err)
+//@   requires ms != nil && implemented != nil
+//@   ensures[rule] err == nil ==> (active <==> ms.frontierHeight != 1 && exists k int :: 0 <= k && k < len(definedSporks(ms)) && definedSporks(ms)[k].Activated && definedSporks(ms)[k].EnforcementHeight <= ms.frontierHeight && definedSporks(ms)[k].Id == implemented.SporkId)
+//@   modifies nothing
+//@   loop 1
+//@     invariant forall k int :: 0 <= k && k <= rangeindex ==> !(sporks[k].Activated && sporks[k].EnforcementHeight <= frontier.Height && sporks[k].Id == implemented.SporkId)
